@@ -437,3 +437,66 @@ def run(ctx):
             ctx.rules.pop(r)
     bad = [o for o in ctx.obs[before:] if not o.ok]
     ctx.ob(R8, "urllib3.response.HTTPResponse", f"{len(ctx.obs) - before} shared obligations (C01-R4, C01-R6, C01-R7)", True)
+
+
+# ---------------------------------------------------------------------------- R10 no lost wake-up at close() (F29)
+_run_base02 = run
+
+
+def run(ctx):  # noqa: F811
+    _run_base02(ctx)
+    from ..rows import GenRule, effect_rows, helper_closure
+    from .c01 import queue_field
+    m = ctx.model
+    qf = queue_field(m)
+    R10 = ctx.rule("C02-R10", "no lost wake-up at close(): a request that waits for a slot without a bound (block=True, pool_timeout=None) is woken when the pool is closed - close() (or the give-back on a closed pool) "
+                   "feeds the detached queue so that every waiter returns from get(), and the waiter then finds the pool closed - or no wait on the queue is unbounded", "E10 effect rows of close() / _get_conn (wake-up tokens into the detached queue, closed-state re-check after the take)")
+    gc = m.method(POOL, "_get_conn")
+    cl = m.method(POOL, "close")
+    QT = f"self.{qf}"
+    # (a) can the wait be unbounded?  the timeout handed to get() is the caller's pool_timeout (None = wait for ever)
+    grow = effect_rows(ctx, gc, GenRule(ctx, gc.module, inline=set(helper_closure(m, [gc], stop=("_new_conn",))) - {gc.qual}, raising={"get": "queue.Empty"}), POOL)
+    unbounded = False
+    n_get = 0
+    from ..terms import destruct as _d, subterms as _st
+    def takes(r):
+        out = []
+        texts = [r.out.split(":", 1)[-1]] + [a_ for e in r.ev for a_ in e[1:] if isinstance(a_, str)] + [k_ for k_ in r.st.facts if isinstance(k_, str)]
+        for t_ in texts:
+            for x_ in _st(t_):
+                o_, a_ = _d(x_)
+                if o_ == "get" and a_ and a_[0] == QT and x_ not in out:
+                    out.append(x_)
+        for e in r.events("call"):
+            if e[1] == f"{QT}.get":
+                out.append("get(" + ",".join([QT] + [a_ for a_ in e[2:] if isinstance(a_, str)]) + ")")
+        return out
+    for r in grow:
+        for x_ in takes(r):
+            n_get += 1
+            args_ = list(_d(x_)[1][1:]) if _d(x_)[0] == "get" else []
+            tmo = next((a_.split("=", 1)[1] for a_ in args_ if a_.startswith("timeout=")), args_[1] if len(args_) > 1 and "=" not in args_[1].split("(", 1)[0] else None)
+            if tmo is None or tmo.startswith("p:") or tmo == "None":
+                unbounded = True
+    ctx.sites(R10, n_get, 1, "queue takes on rows of _get_conn")
+    # (b) does close() (or anything it calls) put into the detached queue?
+    crow = [r for r in effect_rows(ctx, cl, GenRule(ctx, cl.module), POOL) if r.returns]
+    feeds = any(e[0] == "call" and isinstance(e[1], str) and e[1].rsplit(".", 1)[-1] in ("put", "put_nowait") and QT in e[1] for r in crow for e in r.ev)
+    # (c) does the waiter look at the closed state again once get() returned?
+    # (decided on the syntax tree: a sequential interpreter considers the field unchanged across the blocking call, which is
+    # exactly what a concurrent close() falsifies)
+    rechecks = False
+    for q_ in [gc.qual] + sorted(set(helper_closure(m, [gc], stop=("_new_conn",))) - {gc.qual}):
+        f_ = m.funcs.get(q_)
+        if f_ is None:
+            continue
+        take_lines = [c.lineno for c in astq.calls(f_.node) if isinstance(c.func, ast.Attribute) and c.func.attr in ("get", "get_nowait") and astq.text(c.func.value) in (QT, "pool", "idle_conns", "queue_")]
+        for n_ in astq.walk_fn(f_.node):
+            if isinstance(n_, ast.Compare) and len(n_.ops) == 1 and isinstance(n_.ops[0], (ast.Is, ast.IsNot)) and astq.text(n_.left) == QT \
+                    and isinstance(n_.comparators[0], ast.Constant) and n_.comparators[0].value is None and any(n_.lineno > l_ for l_ in take_lines):
+                rechecks = True
+    ok = (not unbounded) or (feeds and rechecks)
+    ctx.ob(R10, cl.qual, "a request waiting for a slot without a bound is woken by close() and then fails with ClosedPoolError", ok,
+           "" if ok else f"the wait can be unbounded (timeout = the caller's pool_timeout, None by default), close() feeds the detached queue: {feeds}, _get_conn re-checks the closed state after the take: {rechecks}. "
+           "With maxsize=1, block=True: thread A holds the connection, thread B waits in get(), thread C calls close() (drains, detaches), A gives back - _put_conn sees the pool closed and closes the connection instead - "
+           "and B waits on the orphaned queue for ever", node=cl.node)
